@@ -62,6 +62,55 @@ template <> struct Val<Tracked>
     static int id(const Tracked &v) { return v.id(); }
 };
 
+// ---- custom orderings whose equivalence is coarser than operator== (or simply reversed)
+struct CaseLess // case-insensitive
+{
+    static constexpr const char *name = "CaseLess";
+    bool operator()(const std::string &a, const std::string &b) const
+    {
+        return std::lexicographical_compare(a.begin(), a.end(), b.begin(), b.end(),
+                                            [](unsigned char x, unsigned char y) { return tolower(x) < tolower(y); });
+    }
+};
+struct CiKeys // pairs of keys that are equivalent under CaseLess but not ==
+{
+    static constexpr const char *name = "string";
+    static std::string make(int i)
+    {
+        static const char *v[12] = {"a", "A", "b", "B", "ab", "AB", "aB", "", "a-key-long-enough-to-own-heap-memory", "A-KEY-long-enough-to-own-heap-MEMORY", "abc", "ABc"};
+        return v[i % 12];
+    }
+};
+struct Rec
+{
+    int id, payload;
+    friend bool operator==(const Rec &a, const Rec &b) { return a.id == b.id && a.payload == b.payload; }
+    friend bool operator<(const Rec &a, const Rec &b) { return a.id < b.id || (a.id == b.id && a.payload < b.payload); }
+};
+struct ById // records ordered by one member only
+{
+    static constexpr const char *name = "ById";
+    bool operator()(const Rec &a, const Rec &b) const { return a.id < b.id; }
+};
+struct RecKeys
+{
+    static constexpr const char *name = "Rec";
+    static Rec make(int i) { return Rec{(i % 12) / 2 * 7 - 9, i % 2}; }
+};
+template <class C> struct CmpName
+{
+    static std::string get() { return std::string(",") + C::name; }
+};
+template <class K> struct CmpName<std::less<K>>
+{
+    static std::string get() { return ""; }
+};
+template <class K> struct CmpName<std::greater<K>>
+{
+    static std::string get() { return ",greater"; }
+};
+template <class C, class K> static bool equiv(const K &a, const K &b) { return !C()(a, b) && !C()(b, a); }
+
 static std::string g_trace;
 static const char *g_op = "?";
 static std::string g_flav;
@@ -108,17 +157,17 @@ enum MKind
 static const char *const MNAME[M_NKINDS] = {"insert(value)", "emplace(key,args)", "operator[]=", "operator[]", "at()=", "clear",
                                            "copy-ctor", "copy-assign", "move-ctor", "move-assign", "reserve"};
 
-template <class K, class V> struct MapHist
+template <class K, class V, class C = std::less<K>, class KM = Key<K>> struct MapHist
 {
-    using FM = igris::flat_map<K, V>;
+    using FM = igris::flat_map<K, V, C>;
     using VT = typename FM::value_type;
     FM *fm = nullptr;
-    std::map<K, int> m;
+    std::map<K, int, C> m;
     int next = 100;
     int universe = 3;
     static const std::string &flav()
     {
-        static const std::string f = std::string("flat_map<") + Key<K>::name + "," + Val<V>::name + ">";
+        static const std::string f = std::string("flat_map<") + KM::name + "," + Val<V>::name + CmpName<C>::get() + ">";
         return f;
     }
     void start(int universe_)
@@ -142,14 +191,14 @@ template <class K, class V> struct MapHist
         VF_OK("flat_map size()/empty() == std::map");
         for (int i = 0; i < universe; i++)
         {
-            K key = Key<K>::make(i);
+            K key = KM::make(i);
             auto mit = m.find(key);
             bool present = mit != m.end();
             auto it = x.find(key);
             auto cit = cx.find(key);
             if ((it != x.end()) != present || (cit != cx.end()) != present)
                 bad("map", "find", "find(key#%d) found=%d, std::map found=%d", i, (int)(it != x.end()), (int)present);
-            if (present && (!(it->first == key) || !(cit->first == key) || Val<V>::id(it->second) != mit->second || Val<V>::id(cit->second) != mit->second))
+            if (present && (!equiv<C>(it->first, key) || !equiv<C>(cit->first, key) || Val<V>::id(it->second) != mit->second || Val<V>::id(cit->second) != mit->second))
                 bad("map", "find-value", "find(key#%d)->second = %d, std::map has %d", i, Val<V>::id(cit->second), mit->second);
             VF_OK("flat_map find(k) == std::map for every key of the universe");
             if (cx.count(key) != m.count(key))
@@ -189,7 +238,7 @@ template <class K, class V> struct MapHist
     }
     void apply(int kind, int ki, int extra = 0)
     {
-        K key = Key<K>::make(ki);
+        K key = KM::make(ki);
         begin_op(MNAME[kind], ki, next);
         switch (kind)
         {
@@ -200,7 +249,7 @@ template <class K, class V> struct MapHist
             {
                 VT val(key, Val<V>::make(id));
                 auto it = fm->insert(val);
-                if (it == fm->end() || !(it->first == key) || Val<V>::id(it->second) != r.first->second)
+                if (it == fm->end() || !equiv<C>(it->first, key) || Val<V>::id(it->second) != r.first->second)
                     bad("map", "returned-iterator", "insert(key#%d) returned an iterator to value %d, std::map holds %d", ki,
                         it == fm->end() ? -1 : Val<V>::id(it->second), r.first->second);
             }
@@ -214,7 +263,7 @@ template <class K, class V> struct MapHist
             auto e = fm->emplace(key, Val<V>::make(id));
             if (e.second != r.second)
                 bad("map", "emplace-inserted", "emplace(key#%d).second=%d, std::map %d", ki, (int)e.second, (int)r.second);
-            if (e.first == fm->end() || !(e.first->first == key) || Val<V>::id(e.first->second) != r.first->second)
+            if (e.first == fm->end() || !equiv<C>(e.first->first, key) || Val<V>::id(e.first->second) != r.first->second)
                 bad("map", "returned-iterator", "emplace(key#%d) returned an iterator to value %d, std::map holds %d", ki,
                     e.first == fm->end() ? -1 : Val<V>::id(e.first->second), r.first->second);
             VF_OK("flat_map emplace reports inserted like std::map");
@@ -271,7 +320,7 @@ template <class K, class V> struct MapHist
         {
             FM *w = new FM;
             if (extra)
-                (*w)[Key<K>::make(extra)] = Val<V>::make(7);
+                (*w)[KM::make(extra)] = Val<V>::make(7);
             *w = (const FM &)*fm;
             verify(*w, 2 * m.size());
             std::swap(fm, w);
@@ -289,7 +338,7 @@ template <class K, class V> struct MapHist
         {
             FM *w = new FM;
             if (extra)
-                (*w)[Key<K>::make(extra)] = Val<V>::make(7);
+                (*w)[KM::make(extra)] = Val<V>::make(7);
             *w = std::move(*fm);
             delete fm;
             fm = w;
@@ -311,10 +360,10 @@ template <class K, class V> struct MapHist
         delete fm;
         fm = nullptr;
         {
-            std::initializer_list<VT> il = {VT(Key<K>::make(keys[I]), Val<V>::make(ids[I + 1]))...};
+            std::initializer_list<VT> il = {VT(KM::make(keys[I]), Val<V>::make(ids[I + 1]))...};
             fm = new FM(il);
         }
-        m = std::map<K, int>{std::pair<const K, int>(Key<K>::make(keys[I]), ids[I + 1])...};
+        m = std::map<K, int, C>{std::pair<const K, int>(KM::make(keys[I]), ids[I + 1])...};
         verify(*fm, m.size());
     }
     void ctor_il_n(const int *keys, int n)
@@ -347,8 +396,8 @@ template <class K, class V> struct MapHist
             for (int i = 0; i < L; i++)
             {
                 int id = next++;
-                arr.push_back(VT(Key<K>::make(keys[i]), Val<V>::make(id)));
-                m.insert({Key<K>::make(keys[i]), id}); // std::map keeps the first entry of a key
+                arr.push_back(VT(KM::make(keys[i]), Val<V>::make(id)));
+                m.insert({KM::make(keys[i]), id}); // std::map keeps the first entry of a key
             }
             struct Raw
             {
@@ -516,14 +565,14 @@ static void map_il_long_run(uint64_t idx)
 VF_SUITE(map_initlist_long, map_il_long_count, map_il_long_run)
 
 // (c) random histories over 6 keys
-static uint64_t map_rand_count() { return vf::thorough() ? 150000 : 1500; }
-template <class K, class V> static void map_rand_t(uint64_t idx)
+static uint64_t map_rand_count() { return vf::thorough() ? 300000 : 3000; }
+template <class K, class V, class C = std::less<K>, class KM = Key<K>> static void map_rand_t(uint64_t idx)
 {
     vf::Rng r(vf::seed(), 0xC02F, idx);
-    MapHist<K, V> h;
-    int U = (idx / 3) % 2 ? 12 : 6; // the larger universe lets the map grow beyond 8 entries
+    MapHist<K, V, C, KM> h;
+    int U = (idx / 6) % 2 ? 12 : 6; // the larger universe lets the map grow beyond 8 entries
     h.start(U);
-    uint64_t hh = vf::mix(idx % 3, 0xF1A7 + U);
+    uint64_t hh = vf::mix(idx % 6, 0xF1A7 + U);
     if (r.chance(1, 3))
     {
         int keys[4], n = r.range(0, 4);
@@ -543,29 +592,39 @@ template <class K, class V> static void map_rand_t(uint64_t idx)
     h.finish();
     vf::count_case(hh, true);
     if (vf::want_sample() && idx % 97 == 3)
-        vf::sample("flat_map random: %s %.300s", MapHist<K, V>::flav().c_str(), g_trace.c_str());
+        vf::sample("flat_map random: %s %.300s", MapHist<K, V, C, KM>::flav().c_str(), g_trace.c_str());
 }
 static void map_rand_run(uint64_t idx)
 {
-    if (idx % 3 == 0)
-        map_rand_t<int, int>(idx);
-    else if (idx % 3 == 1)
-        map_rand_t<std::string, Tracked>(idx);
-    else
-        map_rand_t<int, std::string>(idx);
+    switch (idx % 6)
+    {
+    case 0:
+        return map_rand_t<int, int>(idx);
+    case 1:
+        return map_rand_t<std::string, Tracked>(idx);
+    case 2:
+        return map_rand_t<int, std::string>(idx);
+    case 3:
+        VF_OK("flat_map / flat_set with a comparator whose equivalence is coarser than operator==");
+        return map_rand_t<std::string, int, CaseLess, CiKeys>(idx);
+    case 4:
+        return map_rand_t<Rec, std::string, ById, RecKeys>(idx);
+    default:
+        return map_rand_t<int, int, std::greater<int>>(idx);
+    }
 }
 VF_SUITE(map_random, map_rand_count, map_rand_run)
 
 // ------------------------------------------------------------ flat_set
-template <class K> struct SetHist
+template <class K, class C = std::less<K>, class KM = Key<K>> struct SetHist
 {
-    using FS = igris::flat_set<K>;
+    using FS = igris::flat_set<K, C>;
     FS *fs = nullptr;
-    std::set<K> m;
+    std::set<K, C> m;
     int universe = 4;
     static const std::string &flav()
     {
-        static const std::string f = std::string("flat_set<") + Key<K>::name + ">";
+        static const std::string f = std::string("flat_set<") + KM::name + CmpName<C>::get() + ">";
         return f;
     }
     void start(int universe_, int ctor)
@@ -577,7 +636,7 @@ template <class K> struct SetHist
         if (ctor == 0)
             fs = new FS;
         else if (ctor == 1)
-            fs = new FS(std::less<K>());
+            fs = new FS(C());
         else
             fs = new FS(std::allocator<K>());
         m.clear();
@@ -592,7 +651,7 @@ template <class K> struct SetHist
         VF_OK("flat_set size() == std::set");
         for (int i = 0; i < universe; i++)
         {
-            K key = Key<K>::make(i);
+            K key = KM::make(i);
             if (cx.count(key) != m.count(key))
                 bad("set", "count", "count(key#%d)=%zu, std::set %zu", i, (size_t)cx.count(key), m.count(key));
             VF_OK("flat_set count(k) == std::set for every key of the universe");
@@ -604,7 +663,7 @@ template <class K> struct SetHist
         if (sym < universe)
         {
             begin_op("insert", sym, 0);
-            K key = Key<K>::make(sym);
+            K key = KM::make(sym);
             fs->insert(key);
             m.insert(key);
         }
@@ -629,7 +688,7 @@ template <class K> struct SetHist
             {
                 begin_op("copy-assign", 0, 0);
                 FS *w = new FS;
-                w->insert(Key<K>::make(1));
+                w->insert(KM::make(1));
                 *w = (const FS &)*fs;
                 verify(*w);
                 std::swap(fs, w);
@@ -648,7 +707,7 @@ template <class K> struct SetHist
             {
                 begin_op("move-assign", 0, 0);
                 FS *w = new FS;
-                w->insert(Key<K>::make(2));
+                w->insert(KM::make(2));
                 *w = std::move(*fs);
                 delete fs;
                 fs = w;
@@ -694,14 +753,14 @@ static void set_enum_run(uint64_t idx)
 }
 VF_SUITE(set_enumerate, set_enum_count, set_enum_run)
 
-static uint64_t set_rand_count() { return vf::thorough() ? 60000 : 600; }
-template <class K> static void set_rand_t(uint64_t idx)
+static uint64_t set_rand_count() { return vf::thorough() ? 150000 : 1500; }
+template <class K, class C = std::less<K>, class KM = Key<K>> static void set_rand_t(uint64_t idx)
 {
     vf::Rng r(vf::seed(), 0xC025, idx);
-    SetHist<K> h;
+    SetHist<K, C, KM> h;
     int ctor = r.below(3);
     h.start(12, ctor);
-    uint64_t hh = vf::mix(idx % 2, ctor);
+    uint64_t hh = vf::mix(idx % 5, ctor);
     for (int step = 0; step < 60; step++)
     {
         int sym = r.chance(7, 8) ? (int)r.below(12) : 12 + (int)r.below(5);
@@ -713,10 +772,20 @@ template <class K> static void set_rand_t(uint64_t idx)
 }
 static void set_rand_run(uint64_t idx)
 {
-    if (idx % 2)
-        set_rand_t<int>(idx);
-    else
-        set_rand_t<std::string>(idx);
+    switch (idx % 5)
+    {
+    case 0:
+        return set_rand_t<int>(idx);
+    case 1:
+        return set_rand_t<std::string>(idx);
+    case 2:
+        VF_OK("flat_map / flat_set with a comparator whose equivalence is coarser than operator==");
+        return set_rand_t<std::string, CaseLess, CiKeys>(idx);
+    case 3:
+        return set_rand_t<Rec, ById, RecKeys>(idx);
+    default:
+        return set_rand_t<int, std::greater<int>>(idx);
+    }
 }
 VF_SUITE(set_random, set_rand_count, set_rand_run)
 
@@ -728,7 +797,7 @@ extern "C" void vf_setup()
                           "flat_map emplace reports inserted like std::map", "flat_map operator[] inserts a default / returns the mapped value",
                           "flat_map built from an initializer list (duplicate keys included) == std::map",
                           "flat_map built from a long initializer list (up to 64 entries, repeated keys, distinct values) == std::map",
-                          "flat_set size() == std::set",
+                          "flat_set size() == std::set", "flat_map / flat_set with a comparator whose equivalence is coarser than operator==",
                           "flat_set count(k) == std::set for every key of the universe"})
         vf::require(c);
 }
